@@ -207,12 +207,14 @@ def run(ctx):
     units = []
     for c in cone:
         for m0 in list(c.methods.values()):
-            units.append(ctx.norm.flat(m0, depth=4) if m0.name != "__init__" else m0)
             if m0.name == "__init__":
+                # the written-out form first: the RNG may be made by a helper (`self.rng = make_rng(seed)`) or seeded
+                # by one; a site already judged there is not judged again on the raw text
                 try:
-                    units.append(ctx.norm.flat(m0, depth=3))  # the RNG may be made by a helper (`self.rng = make_rng(seed)`)
+                    units.append(ctx.norm.flat(m0, depth=3))
                 except AnalysisError:
                     pass
+            units.append(ctx.norm.flat(m0, depth=4) if m0.name != "__init__" else m0)
     gen_modules = {c.module.name for c in cone}
     for mi_ in repo.modules.values():
         if mi_.name in gen_modules:
@@ -235,6 +237,21 @@ def run(ctx):
                         chk.ok("R19.c", m.qualname, m.loc(n), "self RNG = random.Random(seed)")
                     elif m.name == "__init__" and not n.args and not n.keywords and _under_seed_is_none(m, n):
                         pass  # `if seed is None: Random()` - what Random(None) does anyway; the seeded branch is judged on its own
+                    elif m.name == "__init__" and not n.args and not n.keywords and _seeded_afterwards(ctx, m, n) is True:
+                        owner_ok = True
+                        chk.ok("R19.c", m.qualname, m.loc(n), "self RNG = random.Random(), then .seed(seed) whenever a seed is given")
+                    elif m.name == "__init__" and not n.args and not n.keywords and _seeded_afterwards(ctx, m, n) == "truthy":
+                        chk.violation(
+                            "R19.c", m, n,
+                            "the generator's RNG is created unseeded and seeded only `if seed:`: the seed 0 is a seed like any "
+                            "other, and a generator created with it is not reproducible",
+                            loc=m.loc(n),
+                        )
+                    elif m.name == "__init__" and not n.args and not n.keywords and _seeded_afterwards(ctx, m, n) is None:
+                        raise AnalysisError(
+                            f"{m.loc(n)}: the generator's RNG is created unseeded and seeded by a later call; whether that "
+                            "call is reached, with the `seed` argument, whenever a seed is given is not decided"
+                        )
                     elif m.name == "__init__":
                         chk.violation("R19.c", m, n, f"the generator's RNG is created as `{ast.unparse(n)}`, not from the `seed` argument", loc=m.loc(n))
                     continue
@@ -332,6 +349,45 @@ def _under_seed_is_none(m, node) -> bool:
             return True
         child, cur = cur, m.module.parents.get(cur)
     return False
+
+
+def _seeded_afterwards(ctx, m, node):
+    """`self.rng = random.Random()` followed, under `if seed is not None:`, by `self.rng.seed(<seed>)` as a statement
+    of that branch: what `random.Random(seed)` does.  True / False (no later seeding at all) / None (not decided)."""
+    body = list(getattr(m.node, "body", []))
+    seeders = [
+        x for st in body for x in ast.walk(st)
+        if isinstance(x, ast.Call) and isinstance(x.func, ast.Attribute) and x.func.attr == "seed"
+        and isinstance(x.func.value, ast.Attribute) and x.func.value.attr in RNG_ATTRS and ast.unparse(x.func.value.value) == "self"
+    ]
+    if not seeders:
+        return False
+    at = next((i for i, st in enumerate(body) if any(x is node for x in ast.walk(st))), None)
+    if at is None or len(seeders) != 1:
+        return None
+    call = seeders[0]
+    for st in body[at + 1:]:
+        if isinstance(st, ast.If) and ast.unparse(st.test) == "seed" and any(x is call for x in ast.walk(st)):
+            return "truthy"
+        if isinstance(st, ast.If) and ast.unparse(st.test).replace(" ", "") == "seedisnotNone" and not st.orelse:
+            for b in st.body:
+                if isinstance(b, ast.Expr) and b.value is call and len(call.args) == 1 and not call.keywords:
+                    a = call.args[0]
+                    defs = [
+                        x.value for x in ast.walk(st) if isinstance(x, ast.Assign) and len(x.targets) == 1
+                        and isinstance(x.targets[0], ast.Name) and isinstance(a, ast.Name) and x.targets[0].id == a.id
+                    ]
+                    # the argument is `seed` itself, or a local that holds it (re-bound only where it is None)
+                    if isinstance(a, ast.Name) and (a.id == "seed" or (defs and isinstance(defs[0], ast.Name) and defs[0].id == "seed")):
+                        later = defs[1:]
+                        guarded = all(
+                            any(isinstance(i, ast.If) and ast.unparse(i.test).replace(" ", "") == f"{a.id}isNone"
+                                and any(y is d for s2 in i.body for y in ast.walk(s2)) for i in ast.walk(st))
+                            for d in later
+                        )
+                        if guarded:
+                            return True
+    return None
 
 
 ROLE = {"limit": "_iteration_limit", "iter": "_current_iteration", "counter": "_counter", "namer": None, "step": 1}
@@ -502,6 +558,13 @@ def _config_is_read_only(ctx, base, cone):
             # a private step that only the constructors run is constructor code
             inits = {k.methods["__init__"] for k in cone if "__init__" in k.methods}
             if m.name.startswith("_") and inits and only_called_from(ctx, m, inits):
+                continue
+            # a public method the pinned tree does not have is new API: no existing caller runs it, and what
+            # generate / the iterator protocol reach through it is judged from there
+            from ..baseline_api import PUBLIC_CALLABLES
+
+            if not m.name.startswith("_") and not any(f"{k.name}.{m.name}" in PUBLIC_CALLABLES for k in cone):
+                chk.notes.append(f"observation: {c.qualname}.{m.name} is not part of the pinned public surface; judged only where pinned methods call it")
                 continue
             n += 1
             for w in lc.attr_writes(m, c):
